@@ -23,6 +23,33 @@ def setup():
   return 0
 
 
+def arm_deadline(prop, tier, seed):
+  """Fail-closed: a check that does not terminate (e.g. the changed implementation loops inside
+  native code where the per-case watchdog cannot reach it) reports the property as no longer shown
+  to hold instead of staying silent.  Far above any run on the unchanged tree (quick <= ~2 min,
+  thorough <= ~15 min)."""
+  import threading
+  limit = float(os.environ.get('VERIF_DEADLINE', '') or (2400 if tier == 'quick' else 7200))
+
+  def fire():
+    try:
+      path = fw.write_replay(prop, {'kind': 'broken-tie', 'case': None, 'tier': tier, 'seed': seed,
+                                    'broken': [{'kind': 'check-did-not-terminate', 'limit_s': limit}],
+                                    'note': 'the check did not finish within its deadline; the property is no longer shown to hold'})
+      print(f'VIOLATION property={prop} replay={path} no-failing-input-found', flush=True)
+      try:
+        import psutil
+        for c in psutil.Process().children(recursive=True):
+          c.kill()
+      except Exception:  # pylint: disable=broad-except
+        pass
+    finally:
+      os._exit(1)
+  t = threading.Timer(limit, fire)
+  t.daemon = True
+  t.start()
+
+
 def main():
   ap = argparse.ArgumentParser()
   ap.add_argument('prop', nargs='?')
@@ -34,6 +61,7 @@ def main():
   if a.setup:
     sys.exit(setup())
   tier = a.tier if a.tier in ('quick', 'thorough') else 'quick'
+  arm_deadline(a.prop, tier, a.seed)
   try:
     mod = importlib.import_module('harness.' + a.prop.lower())
     rc = fw.run_property(mod, tier, a.seed, a.replay)
